@@ -14,53 +14,58 @@ CHECKS = {
          "DESIGN.md 5 C01"),
  "C02": ("fault_enumeration", "exhaustive fate-vector and outage enumeration with a drained-before-virtual-horizon oracle",
          "The same fate-vector space continued on a fair network until drained or a virtual horizon, plus total outages starting at every emission instant of the loss-free run for four outage lengths; "
-         "a quiescent-but-undrained state or a missed horizon is a wedge.",
+         "a quiescent-but-undrained state or a missed horizon is a wedge; plus real session pairs (cipher x FEC x mode grid) under every fate vector over the first K datagrams with blocking readers and writers, which must all finish.",
          "DESIGN.md 5 C02"),
  "C03": ("fault_enumeration", "exhaustive pause-point x control-datagram-loss-subset enumeration on two real KCP cores",
-         "The reader pauses after every possible number of segments for four durations (below the first probe to above the probe cap) and every subset of the first N control-only datagrams after the pause is lost; "
+         "The reader pauses after every possible number of segments for four durations (below the first probe to above the probe cap) and every subset of the first N control-only datagrams after the pause is lost, in one and in both directions; explicit-state BFS (depth 4) over a forged peer with the probing invariants; "
          "oracles: nothing lost (prefix), window discipline while stalled, transfer completes after resume.",
          "DESIGN.md 5 C03"),
  "C04": ("model_checking", "invariant checking after every transition of exhaustively enumerated executions of the real KCP cores",
          "Seven window invariants (delivery queue and reorder buffer bounded by the receive window, truthful advertised window, outstanding <= send window, new segments only inside min(snd_wnd, rmt_wnd, cwnd), "
-         "no admission after a timeout loss) are evaluated after every call into either endpoint over all fate vectors of symmetric, asymmetric-window, slow-reader and application-limited configurations.",
+         "no admission after a timeout loss) are evaluated after every call into either endpoint over all fate vectors of symmetric, asymmetric-window, slow-reader, application-limited and warmed-up configurations; explicit-state BFS (depth 3/4) against an adversarial peer; "
+         "session clause: Write sequences over a dead and a healed network against the admission model (admitted iff pending < send window, otherwise blocked).",
          "DESIGN.md 5 C04"),
  "C12": ("exploration", "differential enumeration: every fate vector re-run under every boundary-placing offset of sn and clock",
-         "Each base execution is re-run with initial sn and clock shifted so that the 2^31 / 2^32 boundary falls at every segment index resp. every stride of the run; normalised wire traces and delivered data must be identical.",
+         "Each base execution is re-run with initial sn and clock shifted so that the 2^31 / 2^32 boundary falls at every segment index resp. every stride of the run; normalised wire traces and delivered data must be identical. "
+         "FEC: encoder 0-4 groups before its wrap value x idle gap before every data packet position, receivers tracking the stream or auto-tuned from another ratio: id discipline and recovery of one loss per group.",
          "DESIGN.md 5 C12"),
  "C17": ("model_checking", "stateless DFS over thread interleavings of the real TimedSched on a controlled scheduler, iterated preemption bound, happens-before state caching",
          "All interleavings (preemption bound iterated 0..2/3; switches at blocking points, select ties free; early timer firing as a deviation) of 1-3 submitters with the real prepend/sched goroutines, "
-         "deadline alphabets incl. ties with timer expiry, both timer-channel semantics; oracle: each task exactly once, never early, run by the first quiescent state after its deadline, workers exit on Close.",
+         "deadline alphabets incl. ties with timer expiry and never-deadlines beyond the range of UnixNano, both timer-channel semantics; oracle: each task exactly once, never early, run by the first quiescent state after its deadline, workers exit on Close.",
          "DESIGN.md 5 C17"),
- "C18": ("fault_enumeration", "exhaustive enumeration of a clean-path configuration grid; per-step RTO bound",
-         "Every configuration of a grid (mode x nodelay x one-way delay with 2D+interval < min RTO x windows x stream/message x length, bidirectional) is executed without faults on two real cores; every data sn must appear on the wire exactly once, and rx_rto must stay within [minrto, 60000] after every call.",
+ "C18": ("fault_enumeration", "exhaustive enumeration of a clean-path configuration grid; explicit-state BFS over acknowledgement timestamps and mode switches for the RTO bound",
+         "Every configuration of a grid (mode x nodelay x one-way delay with 2D+interval < min RTO x windows x stream/message x length, bidirectional) is executed without faults on two real cores; incl. two independent flush clocks, trained estimator plus outlier, and bursts larger than the receive window against a receiver that inputs a batch before its reader runs; every data sn must appear on the wire exactly once; "
+         "rx_rto within [minrto, 60000] after every call, and BFS (depth 5/6) over acknowledgements with aged/forged timestamps, ticks, sends and NoDelay mode switches (after a sample the RTO is at least the minimum of the current mode).",
          "DESIGN.md 5 C18"),
  "C20": ("model_checking", "explicit-state BFS to fixpoint over the real RingBuffer against a slice model",
-         "All abstract states (capacity, head, length) with length <= L reachable from NewRingBuffer(0,1,8,9,16) are enumerated to fixpoint and every operation "
+         "All abstract states (capacity, head, length) with length <= L (48/144) reachable from NewRingBuffer(0,1,8,9,10,12,16,48,100) are enumerated to fixpoint and every operation "
          "of the alphabet is applied in each, compared with a slice-backed queue incl. raw-slot zeroing; plus every head position for capacities around the 1024 growth threshold.",
          "DESIGN.md 5 C20"),
  "C08": ("exploration", "complete enumeration of the length space against independently built references; interleaving exploration of concurrent callers",
-         "All 13 BlockCrypt ciphers x every length 0..1500 x in-place/out-of-place x 3 patterns x 2 keys against crypto/cipher CFB (fixed IV), x/crypto salsa20, pbkdf2 XOR table, copy; "
-         "AES-GCM seal/open inside a 1500-byte buffer for every plaintext length; 3 concurrent callers on one BlockCrypt with every block-cipher call a scheduling point, all interleavings within the preemption bound.",
+         "All 13 BlockCrypt ciphers x every length 0..1500 x in-place/out-of-place x 3 (thorough 8) patterns x 2 (5) keys against crypto/cipher CFB (fixed IV), x/crypto salsa20, pbkdf2 XOR table, copy; "
+         "AES-GCM seal/open inside a 1500-byte buffer for every plaintext length; 3 (4) concurrent callers (Encrypt and Decrypt mixed) on one BlockCrypt with every block-cipher call a scheduling point, all interleavings within preemption bound 2 (3).",
          "DESIGN.md 5 C08"),
  "C09": ("exploration", "independent README-derived decoder applied to every datagram of exhaustively enumerated session executions",
          "Every datagram either end of a real session pair hands to the virtual PacketConn, for every fate vector over the first K datagrams and every cipher x FEC x mode configuration, is decoded by a decoder that imports nothing from kcp: "
-         "layout, CRC/tag, FEC type/position/order, Reed-Solomon parity of complete groups, nonce and datagram uniqueness, and the stream reassembled from the wire alone equals what was written; 2^20 draws of the real entropy source are distinct.",
+         "layout, CRC/tag, FEC type/position/order, Reed-Solomon parity of complete groups, nonce and datagram uniqueness, and the stream reassembled from the wire alone equals what was written; out-of-band packets and the FEC-protection rule (a continuous group is followed by its parity) included; encoder at its wrap value; "
+         "2^20 sequential draws of the real entropy source are distinct, and so are concurrent draws under every interleaving (with scheduling points after every Unlock).",
          "DESIGN.md 5 C09"),
  "C10": ("exploration", "exhaustive enumeration of an MTU boundary alphabet x history positions x overhead classes on the real session and core",
          "len of every buffer at WriteTo <= session MTU over MTU x cipher x FEC classes and all fate vectors; SetMtu(v) for a boundary alphabet at four positions of a traffic history (incl. concurrently, with loss) on the session, "
-         "and at three positions on the raw core; accepted => no panic, bound holds from then on, transfer completes; refused => only when unusable.",
+         "and at three positions on the raw core; accepted => no panic, bound holds from then on, transfer completes; refused => only when unusable; out-of-band payload lengths around the maximum x MTU x cipher; emission-size BFS (depth 4) against a forged peer.",
          "DESIGN.md 5 C10"),
  "C13": ("model_checking", "stateless DFS over thread interleavings of the real session/listener code on a controlled scheduler with virtual time, iterated preemption bound, happens-before state caching",
-         "36 timed scripts (data, acks, deadline none->set / later / earlier / zero->set / past, Close, socket errors; 1-3 blocked callers of Read/Write/Accept) x both timer-channel semantics; every interleaving within the preemption bound "
-         "(switches at blocking points and select ties free); each call must return with the scripted outcome inside its virtual-time window (never before the effective deadline, not later than the instant it is due).",
+         "43 timed scripts (data, FEC-recovered data, acks, window enlarged, deadline none->set / later / earlier / zero->set / past, Close, socket errors; 1-3 blocked callers of Read/Write/Accept) x both timer-channel semantics; every interleaving within the deviation bound "
+         "(delay bounding: preemptions, non-default thread at a blocking point, non-default ready select case); each call must return with the scripted outcome inside its virtual-time window (never before the effective deadline, not later than the instant it is due).",
          "DESIGN.md 5 C13"),
  "C15": ("model_checking", "stateless DFS with closers released at any scheduling point; leak and pool-ownership oracles",
          "Session pairs mid-transfer; closers for client, accepted session and listener (several orders) lurk and may be released at any scheduling point or at chosen virtual instants; afterwards every library goroutine must have exited, "
-         "no timer may stay armed, and the pool sanitizer (double recycle, foreign buffer, write-after-recycle by poison; quarantine and eager-reuse modes) must stay silent.",
+         "no timer may stay armed, and the pool sanitizer (double recycle, foreign buffer, write-after-recycle by poison; quarantine and eager-reuse modes) must stay silent; backlog overflow; SetDUP; "
+         "events before the shutdown (socket faults, out-of-band handlers closing from inside the callback, simultaneous closes) with and without the library owning the transport.",
          "DESIGN.md 5 C15"),
  "C05": ("exploration", "structure-aware bounded-exhaustive input enumeration at every position of real histories, plus explicit-state BFS with an adversarial peer",
          "Truncations, extensions, constant strings and every single boundary-value header-field edit (thorough: pairs) of every genuine datagram, re-sealed with a valid CRC/tag, fed to the real packetInput at the datagram's history position "
-         "(client, listener with/without session, foreign address); forged FEC groups and short typed bodies; raw KCP.Input header-alphabet product incl. >1500-byte payloads; fecDecoder.decode alphabets and stale-flood sequences (64 packets in distinct groups behind the window); adversarial BFS (depth 3/4) on the core. "
+         "(client, listener with/without session, foreign address); forged FEC groups and short typed bodies; raw KCP.Input header-alphabet product incl. >1500-byte payloads; forged fragment-count sequences read the way a session reads; fecDecoder.decode alphabets and stale-flood sequences (64 packets in distinct groups behind the window); adversarial BFS (depth 3/4) on the core. "
          "Oracle: no panic, buffering limits of C04, bounded ack list / shard sets / pool occupancy.",
          "DESIGN.md 5 C05"),
  "C06": ("fault_enumeration", "exhaustive corruption battery per datagram and history position with an independent integrity oracle and a reflective deep-state hash",
@@ -69,25 +74,26 @@ CHECKS = {
          "DESIGN.md 5 C06"),
  "C07": ("fault_enumeration", "exhaustive enumeration of arrival sequences over real encoder output into the real decoder",
          "For each (d,p), group position (incl. 2^31, wrap value; tracked and fresh decoder) and payload-size vector: every arrival sequence of length <= n+1 over the group's n packets plus two of the next group; "
-         "when the d-th distinct packet arrives every missing data packet must have been reconstructed byte-exactly with zero padding, and everything emitted must be an original of its group.",
+         "for groups of more than 5 packets every arriving subset in four orders; when the d-th distinct packet arrives every missing data packet must have been reconstructed byte-exactly with zero padding, and everything emitted must be an original of its group; "
+         "session level: a session fed all data packets but one plus parity, with no peer to retransmit, must deliver the whole stream.",
          "DESIGN.md 5 C07"),
  "C14": ("exploration", "ThreadSanitizer happens-before race check on every explored schedule of the real code under the controlled scheduler (HB-race mode)",
-         "All 26 UDPSession and 9 Listener methods, each called twice on its own thread on dialled and accepted session against live traffic and a second client, cipher {none, AES-CFB, AEAD, pure-Go CFB (twofish, blowfish), salsa20} x FEC {off,on} x Close variants, Read also with buffers smaller than a chunk; "
-         "the scheduler's hand-offs are hidden from TSan and the shims announce the program's own HB edges, so a race between any two calls is reported on any schedule where both accesses occur; default schedule + single deviations.",
+         "All 27 UDPSession and 9 Listener methods, each called twice on its own thread on dialled and accepted session against live traffic and a second client, every cipher (none, AES-CFB, AEAD, sm4, twofish, blowfish, 3des, cast5, tea, xtea, salsa20, xor, none-with-CRC) x FEC {off,on} x Close variants, Read also with buffers smaller than a chunk; "
+         "the scheduler's hand-offs are hidden from TSan and the shims announce the program's own HB edges, so a race between any two calls is reported on any schedule where both accesses occur; default schedule + single deviations. The entropy generators (state written by assembly, invisible to TSan) are decided by interleaving exploration with scheduling points after every Unlock.",
          "DESIGN.md 5 C14"),
  "C16": ("fault_enumeration", "exhaustive enumeration of sender/receiver ratio pairs x starting residues; fate vectors for stability",
          "Every (d,p) x (d',p') with d,d'<=4, p,p'<=3 and boundary pairs up to d+p=255, from every starting residue and three bases: the real decoder fed the real encoder's uninterrupted output must adopt the ratio within 258+2(d+p) packets "
-         "and then recover a single loss; with equal ratios every fate vector {deliver, drop, duplicate, swap} over the first K genuine packets must never set the tuning flag or change the ratio.",
+         "and then recover a single loss; with equal ratios every fate vector {deliver, drop, duplicate, swap} over the first K genuine packets must never set the tuning flag or change the ratio; whole sessions with different ratios at the two ends (or FEC at one end only) under every fate vector deliver both streams intact.",
          "DESIGN.md 5 C16"),
  "C11": ("fault_enumeration", "exhaustive fate-vector x injection enumeration on a real listener with several real clients; schedule deviations on a subset",
          "Listener + 2-3 dialled clients on the virtual network: every fate vector over the first K datagrams x one injected datagram (same address/other conversation with sn!=0, sn=0, ACK; foreign address replaying the conversation; "
-         "parity/short packets without readable conversation; datagrams mixing segments of two conversations; strangers and stale conversations writing to the dialled client) x three instants x backlog {default, 1} x address types x cipher/FEC classes; "
+         "parity/short packets without readable conversation; datagrams mixing segments of two conversations; strangers and stale conversations writing to the dialled client) x three instants x backlog {default, 1} x address types x cipher/FEC classes, also through the Linux batch read loops on a virtual batch connection; an application that stops accepting while strangers keep the backlog full; "
          "plus connect/close/reconnect histories (same address, new conversation, application handlers that close on Read error and close twice) x reconnect instant x idle deadline x fates; "
          "each accepted session's reads must be a prefix of what the peer at its address and conversation wrote, each genuine peer accepted exactly once, nothing foreign delivered, stalled or closed.",
          "DESIGN.md 5 C11"),
  "C19": ("fault_enumeration", "exhaustive payload-length enumeration and fate-vector x schedule exploration of OOB interleaved with stream traffic on real session pairs",
          "Every OOB payload length 0..GetOOBMaxSize()+1 on a clean path for three cipher classes; boundary lengths in both directions under every fate vector and every single scheduling deviation with the independent wire decoder "
-         "(OOB consumes no FEC id, parity covers data only) and the stream oracle; refusal without FEC and above the maximum; two clients on one listener; a new conversation on the same address while the old one's OOB is in flight, on the dialled and on the listener side.",
+         "(OOB consumes no FEC id, parity covers data only) and the stream oracle; refusal without FEC and above the maximum; two clients on one listener; FEC at the peer only (out-of-band calls refused before, while and after FEC packets arrive); a new conversation on the same address while the old one's OOB is in flight, on the dialled and on the listener side.",
          "DESIGN.md 5 C19"),
 }
 NOT_YET = {}
